@@ -796,4 +796,34 @@ def serRDSs : List RDS → List Json
   | d :: t => serRDS d :: serRDSs t
 end
 
+/-! ### normal form: what the parser builds for a tree -/
+
+/- `parseFilteredDatasource` returns the inner datasource itself when the filter list is empty
+   (openapi_parser_datasource.go:161-163); every other node is built as written. -/
+mutual
+def normDS : DS → DS
+  | .static fm data => .static fm data
+  | .filtered ds fs => if fs.isEmpty then normDS ds else .filtered (normDS ds) fs
+  | .reduction rt al m fm e => .reduction rt al (normMDS m) fm e
+  | .fromReport r urn => .fromReport (normRDS r) urn
+def normMDS : MDS → MDS
+  | .list l => .list (normDSs l)
+  | .filtered m fs => .filtered (normMDS m) fs
+def normDSs : List DS → List DS
+  | [] => []
+  | d :: t => normDS d :: normDSs t
+def normRDS : RDS → RDS
+  | .static ms rows => .static ms rows
+  | .join jt m => .join jt (normRMDS m)
+  | .fromDatasource d => .fromDatasource (normDS d)
+  | .filtered r fs => .filtered (normRDS r) fs
+def normRMDS : RMDS → RMDS
+  | .list l => .list (normRDSs l)
+  | .fromMulti m => .fromMulti (normMDS m)
+  | .filtered m fs => .filtered (normRMDS m) fs
+def normRDSs : List RDS → List RDS
+  | [] => []
+  | d :: t => normRDS d :: normRDSs t
+end
+
 end ShpanVerif.Model.Parser
